@@ -12,7 +12,10 @@ static int ref_in_special_query(uint8_t c) { return ref_in_query(c) || c == 0x27
 static int ref_in_path(uint8_t c) { return ref_in_query(c) || c == 0x3F || c == 0x5E || c == 0x60 || c == 0x7B || c == 0x7D; }
 static int ref_in_userinfo(uint8_t c) { return ref_in_path(c) || c == 0x2F || c == 0x3A || c == 0x3B || c == 0x3D || c == 0x40 || (c >= 0x5B && c <= 0x5D) || c == 0x7C; }
 static int ref_in_component(uint8_t c) { return ref_in_userinfo(c) || (c >= 0x24 && c <= 0x26) || c == 0x2B || c == 0x2C; }
-static int ref_in_form(uint8_t c) { return ref_in_component(c) || c == 0x21 || (c >= 0x27 && c <= 0x29) || c == 0x7E; }
+/* application/x-www-form-urlencoded percent-encode set = component set + ! ' ( ) ~ .  The form serializer runs with
+ * spaceAsPlus = true: U+0020 is emitted as '+', never as %20; the library realises that as "leave 0x20 out of the
+ * bitmap, then replace ' ' by '+'" (url_search_params::to_string), so the bitmap is the Standard's set minus 0x20. */
+static int ref_in_form(uint8_t c) { return c != 0x20 && (ref_in_component(c) || c == 0x21 || (c >= 0x27 && c <= 0x29) || c == 0x7E); }
 static int ref_in_set(unsigned set, uint8_t c) {
   switch (set) {
     case SET_C0: return ref_in_c0(c);
